@@ -36,6 +36,9 @@ PROPS = ['Props/C19.v']
 L_INV, L_ACQC, L_ACQG, L_RELG, L_READ, L_WRITE, L_DEL, L_CLOSE, L_RELC, \
     L_RES = 0, 1, 2, 3, 5, 6, 7, 8, 9, 10
 L_BLOCKED = -1
+L_ACQX, L_RELX = 11, 12          # a lock the model does not know
+# lock files of the cache under test ('c19') -> the model's two locks
+LOCKNAMES = {'cache_all_global.lock': 'G', 'cache_c19.lock': 'C'}
 STEP_TIMEOUT = 20.0
 
 
@@ -303,13 +306,22 @@ class _ShelfProxy:
         return getattr(self._r, name)
 
 
-def _child_main(chan, root, prog, commit_points):
-    """ runs in the forked child; never returns """
+def _child_main(chan, root, prog, commit_points, free=False):
+    """ runs in the forked child; never returns.  free: only invocation and
+    response are scheduling points, locks really block """
     try:
         import shelve
         import dbm.dumb
         import fasteners
         from searchkit.utils import MPCacheSimple
+        if free:
+            cache = MPCacheSimple('c19', 'verif', root)
+            for i, op in enumerate(prog):
+                chan.point('inv', i)
+                r = do_op(cache, op)
+                chan.point('res', i, r)
+            os.write(chan.wfd, b'["done"]\n')
+            os._exit(0)
 
         ipl = fasteners.InterProcessLock
         real_acq, real_rel, real_open = ipl.acquire, ipl.release, shelve.open
@@ -318,8 +330,7 @@ def _child_main(chan, root, prog, commit_points):
             p = lock.path
             if isinstance(p, bytes):
                 p = p.decode()
-            return 'G' if os.path.basename(p) == 'cache_all_global.lock' \
-                else 'C'
+            return LOCKNAMES.get(os.path.basename(p), os.path.basename(p))
 
         def acquire(self, *a, **k):
             chan.point('acq', lname(self))
@@ -396,13 +407,13 @@ class Hang(Exception):
 class Run:
     """ one scheduled run of n forked children """
 
-    def __init__(self, workdir, progs, commit_points=False):
+    def __init__(self, workdir, progs, commit_points=False, free=()):
         self.progs = progs
         self.n = len(progs)
         self.root = tempfile.mkdtemp(prefix='c19run_', dir=workdir)
         self.pids, self.rfd, self.wfd, self.buf = [], [], [], []
         self.pending = [None] * self.n
-        self.owner = {'C': None, 'G': None}
+        self.owner = {}
         self.trace = []          # (pid, label) incl. blocked attempts
         self.events = []         # history, chronological
         self.fail_texts = []
@@ -425,7 +436,7 @@ class Run:
                     except OSError:
                         pass
                 _child_main(_Chan(p2c_r, c2p_w), self.root, prog,
-                            commit_points)
+                            commit_points, i in free)
                 os._exit(0)
             if i == 0:
                 pgid = pid
@@ -459,6 +470,39 @@ class Run:
         line, self.buf[i] = self.buf[i].split(b'\n', 1)
         return json.loads(line)
 
+    def poll(self, i, timeout):
+        """ next message of child i if it arrives within timeout, else None """
+        deadline = time.time() + timeout
+        while b'\n' not in self.buf[i]:
+            left = deadline - time.time()
+            if left <= 0:
+                return None
+            r, _, _ = select.select([self.rfd[i]], [], [], left)
+            if not r:
+                return None
+            chunk = os.read(self.rfd[i], 65536)
+            if not chunk:
+                return ['crash', 'child closed its pipe']
+            self.buf[i] += chunk
+        line, self.buf[i] = self.buf[i].split(b'\n', 1)
+        return json.loads(line)
+
+    def grant_only(self, i):
+        """ grant child i's pending invocation / response without waiting
+        for its next message (free children block for real) """
+        m = self.pending[i]
+        if m[0] == 'inv':
+            self.events.append(('inv', i, m[1], self.progs[i][m[1]]))
+        elif m[0] == 'res':
+            r = m[2]
+            if r and r[0] in (2, 'odd'):
+                self.fail_texts.append((i, m[1], r))
+                r = [2]
+            self.events.append(('res', i, m[1], self.progs[i][m[1]], r))
+        self.trace.append((i, self.label(m)))
+        os.write(self.wfd[i], b'g')
+        self.pending[i] = ['running']
+
     def done(self, i):
         return self.pending[i][0] in ('done', 'crash')
 
@@ -467,7 +511,7 @@ class Run:
 
     def blocked(self, i):
         m = self.pending[i]
-        return m[0] == 'acq' and self.owner[m[1]] is not None
+        return m[0] == 'acq' and self.owner.get(m[1]) is not None
 
     def label(self, m):
         t = m[0]
@@ -476,9 +520,9 @@ class Run:
         if t == 'res':
             return L_RES
         if t == 'acq':
-            return L_ACQC if m[1] == 'C' else L_ACQG
+            return {'C': L_ACQC, 'G': L_ACQG}.get(m[1], L_ACQX)
         if t == 'rel':
-            return L_RELC if m[1] == 'C' else L_RELG
+            return {'C': L_RELC, 'G': L_RELG}.get(m[1], L_RELX)
         if t == 'open':
             try:
                 return 100 + int(m[1])
@@ -505,7 +549,7 @@ class Run:
         if m[0] == 'acq':
             self.owner[m[1]] = i
         elif m[0] == 'rel':
-            if self.owner[m[1]] == i:
+            if self.owner.get(m[1]) == i:
                 self.owner[m[1]] = None
         elif m[0] == 'inv':
             self.events.append(('inv', i, m[1], self.progs[i][m[1]]))
@@ -594,12 +638,12 @@ def drive(run, plan, mode, rng=None, max_steps=4000):
 
 
 def scheduled_run(chk, progs, plan, mode, rng=None, commit_points=False,
-                  script=None):
+                  script=None, free=()):
     """ -> dict(progs, trace, events, status, ...) """
     run = None
     res = {'progs': progs, 'mode': mode, 'plan': list(plan or [])}
     try:
-        run = Run(chk.work, progs, commit_points)
+        run = Run(chk.work, progs, commit_points, free)
         if script is not None:
             status = script(run)
         else:
@@ -762,7 +806,7 @@ FIXED_SEQ = [
 def sequential(chk):
     from searchkit.utils import MPCacheSimple
     rng = chk.rng
-    n = 600 if chk.quick else 2000
+    n = 500 if chk.quick else 2000
     progs, wants, texts = [], [], []
     d = tempfile.mkdtemp(prefix='c19seq_', dir=chk.work)
     try:
@@ -877,7 +921,7 @@ def plan_runs(chk):
         for pl in sel:
             plans.append(([a, b], pl, 'segment', keys))
     # random fine-grained schedules
-    nrand = 400 if chk.quick else 600
+    nrand = 300 if chk.quick else 600
     for c in range(nrand):
         if chk.quick:
             nproc = rng.choice([2, 2, 3, 3, 4])
@@ -1007,6 +1051,16 @@ def commit_probe(chk):
         ([[('set', 1, 5), ('bulk', [(1, 6), (2, 7)])], [('get', 1)]], [1, 2]),
         ([[('bulk', [(1, 5)]), ('set', 1, 6)], [('get', 1), ('get', 1)]],
          [1]),
+        # bulk_set parked in the commit of one of its keys while another
+        # process works on that key with single-key operations
+        ([[('bulk', [(1, 5), (2, 4)]), ('bulk', [(1, 6), (2, 7)]),
+           ('get', 1)], [('get', 1), ('get', 1), ('get', 2)]], [1, 2]),
+        ([[('set', 1, 5), ('bulk', [(1, 6), (2, 7)]), ('get', 1)],
+          [('unset', 1), ('get', 1)]], [1, 2]),
+        ([[('set', 1, 5), ('bulk', [(1, 6), (2, 7)]), ('get', 1)],
+          [('set', 1, 9), ('get', 1)]], [1, 2]),
+        ([[('set', 2, 5), ('bulk', [(2, 6), (1, 7)]), ('get', 2)],
+          [('get', 2), ('unset', 2), ('get', 2)]], [1, 2]),
     ]
     for progs, keys in shapes:
         state = {'parked': False, 'reader_blocked': 0, 'reader_moved': 0}
@@ -1066,6 +1120,176 @@ def commit_probe(chk):
             elif state['parked']:
                 chk.violation("probe reader-not-blocked-during-commit",
                               info, witness=False)
+
+def _finish_free(run, i):
+    """ let a free-running child run to completion """
+    guard = 0
+    while not run.done(i):
+        if run.pending[i][0] == 'running':
+            run.pending[i] = run._recv(i)
+        else:
+            run.grant_only(i)
+            run.pending[i] = run._recv(i)
+        guard += 1
+        if guard > 200:
+            return 'too-long'
+    return 'ok'
+
+
+def park_probe(chk):
+    """ a writer is parked INSIDE its critical section (the scheduler simply
+    does not grant its next step) for longer than any sensible lock timeout
+    while a free-running reader (real blocking) gets a key that IS set: the
+    reader must wait and then return a written value, never None """
+    park = 1.6
+    shapes = [
+        ([[('set', 1, 5), ('set', 1, 6)], [('get', 1)]], [1]),
+        ([[('set', 1, 5), ('bulk', [(2, 7), (1, 6)])],
+          [('get', 1), ('get', 2)]], [1, 2]),
+    ]
+    for progs, keys in shapes:
+        state = {'parked_holding': None, 'reader_answered_while_parked': None}
+
+        def script(run, state=state):
+            guard = 0
+            while not (run.pending[0][0] == 'inv' and run.pending[0][1] == 1):
+                if run.attempt(0) is None:
+                    return 'writer-finished-early'
+                guard += 1
+                if guard > 200:
+                    return 'too-long'
+            while run.pending[0][0] not in ('write', 'done', 'crash'):
+                run.attempt(0)
+                guard += 1
+                if guard > 400:
+                    return 'too-long'
+            state['parked_holding'] = sorted(
+                k for k, v in run.owner.items() if v == 0)
+            run.grant_only(1)                     # the reader's invocation
+            m = run.poll(1, park)
+            state['reader_answered_while_parked'] = m is not None
+            if m is not None:
+                run.pending[1] = m
+                if m[0] == 'res':
+                    run.grant_only(1)             # recorded before the writer
+            while not run.done(0):                # moves on
+                run.attempt(0)
+                guard += 1
+                if guard > 800:
+                    return 'too-long'
+            return _finish_free(run, 1)
+
+        r = scheduled_run(chk, progs, None, 'park-probe', script=script,
+                          free=(1,))
+        chk.coverage['evaluations'] += 1
+        chk.dist('park_probes', 1)
+        info = {'programs': progs, 'mode': 'park-probe (reader free-running, '
+                f'writer parked {park}s inside its critical section)',
+                'schedule': r.get('trace'), 'status': r['status'],
+                'probe': dict(state), 'errors': r.get('fail_texts'),
+                'crashes': r.get('crashes')}
+        if r['status'] != 'ok' or r.get('crashes'):
+            chk.violation(f"park-probe {r['status']}",
+                          dict(info, history=r.get('events')), witness=True)
+            continue
+        ops = events_to_ops(r['events'])
+        if report_history(chk, 'park-probe', info, ops, keys):
+            if state['reader_answered_while_parked']:
+                chk.violation("park-probe reader-not-blocked", info,
+                              witness=False)
+            else:
+                chk.coverage['distinct_nontrivial'] += 1
+
+
+CROSS_SCRIPT = r"""
+import sys, json, logging
+sys.path.insert(0, sys.argv[1])
+logging.disable(logging.CRITICAL)
+from searchkit.utils import MPCacheSimple
+c = MPCacheSimple('c19', 'verif', sys.argv[2])
+out = []
+for op in json.loads(sys.argv[3]):
+    try:
+        if op[0] == 'set':
+            c.set(str(op[1]), op[2]); out.append([0])
+        elif op[0] == 'unset':
+            c.unset(str(op[1])); out.append([0])
+        elif op[0] == 'bulk':
+            c.bulk_set({str(k): v for k, v in op[1]}); out.append([0])
+        else:
+            v = c.get(str(op[1]))
+            out.append([1] if v is None else
+                       ([1, v] if type(v) is int else ['odd', repr(v)]))
+    except BaseException as exc:
+        out.append([2, type(exc).__name__ + ': ' + str(exc)[:200]])
+print(json.dumps(out))
+"""
+
+
+def cross_interpreter(chk):
+    """ independently STARTED interpreters (subprocess, different str-hash
+    seeds) use the same global path one after the other: they must see one
+    register.  Judged by the sequential register spec. """
+    import subprocess
+    import sys
+    stages = [
+        ('101', [('set', 1, 5), ('bulk', [(2, 6), (0, 0)]), ('get', 1)]),
+        ('202', [('get', 1), ('get', 2), ('get', 0), ('unset', 1),
+                 ('set', 2, 7), ('get', 1)]),
+        (None, [('get', 1), ('get', 2), ('get', 0), ('unset', 0),
+                ('get', 0), ('set', 1, 3)]),
+        ('101', [('get', 2), ('get', 0), ('get', 1)]),
+    ]
+    root = tempfile.mkdtemp(prefix='c19x_', dir=chk.work)
+    got, detail = [], []
+    try:
+        for seed, prog in stages:
+            env = dict(os.environ)
+            env.pop('PYTHONHASHSEED', None)
+            if seed is not None:
+                env['PYTHONHASHSEED'] = seed
+            try:
+                p = subprocess.run(
+                    [sys.executable, '-c', CROSS_SCRIPT, vlib.REPO, root,
+                     json.dumps(prog)], env=env, timeout=60,
+                    stdout=subprocess.PIPE, stderr=subprocess.PIPE,
+                    text=True, start_new_session=True)
+                rs = json.loads(p.stdout.strip().splitlines()[-1])
+            except (subprocess.TimeoutExpired, ValueError, IndexError) as exc:
+                rs = [[2, f"interpreter failed: {exc}"[:200]]] * len(prog)
+            got += rs
+            detail.append({'PYTHONHASHSEED': seed, 'program': prog,
+                           'results': rs})
+    finally:
+        shutil.rmtree(root, ignore_errors=True)
+    whole = [o for _, prog in stages for o in prog]
+    st, want = {}, []
+    for o in whole:
+        want.append(spec_res(o, st))
+        st = spec_apply(o, st)
+    chk.coverage['evaluations'] += 1
+    chk.dist('cross_interpreter_ops', len(whole))
+    if [canon(r) for r in got] != want:
+        kind = 'op-raises' if any(r[:1] == [2] for r in got) else \
+            'wrong-value'
+        chk.violation(f"cross-interpreter {kind}",
+                      {'stages': detail, 'spec_results': want,
+                       'note': 'interpreters started one after the other '
+                               'with different str-hash seeds'},
+                      witness=True)
+    else:
+        chk.coverage['distinct_nontrivial'] += 1
+    # the same concatenated program through the Coq spec
+    mm, errs = vlib.eval_cases(chk.work, 'cross_spec', '', PRE,
+                               'run_seq_spec', [prog_coq(whole)],
+                               [[canon(r) if r[0] != 'odd' else [2]
+                                 for r in got]], shard=10)
+    for e in errs:
+        chk.broken.append({'obligation': 'cross-interpreter (coqc)',
+                           'why': e})
+    if mm and [canon(r) for r in got] == want:
+        chk.broken.append({'obligation': 'python and Coq register specs '
+                           'agree', 'why': str(mm)})
 
 
 def stress(chk):
@@ -1135,12 +1359,17 @@ def run(chk):
         "and values vs the model's mrun, history vs python and Coq "
         "linearizability checkers (non-trivial = some process had to wait "
         "for a lock and >= 2 kinds of operation); commit probe; "
+        "park probe (writer held inside its critical section 1.6 s, reader "
+        "free-running); cross-interpreter sequential run (subprocesses with "
+        "different PYTHONHASHSEED); "
         "free-running stress with monotonic timestamps (non-trivial = "
         "operations of different processes overlapped in time)")
     backend_note(chk)
     sequential(chk)
     scheduled(chk)
     commit_probe(chk)
+    park_probe(chk)
+    cross_interpreter(chk)
     stress(chk)
     chk.assumptions += [
         "fcntl locks taken through fasteners.InterProcessLock exclude each "
